@@ -15,15 +15,19 @@ Definition memn (x : nat) (l : list nat) : bool := existsb (Nat.eqb x) l.
 Inductive thread :=
 | TSession (b : N) (pc : nat) (st : N)
     (* pc 0: DenyStore.AllowIfNotDenied (400 if denied); 1: CodeStore.SubmitToken; 2: finished. st = HTTP status *)
-| TDeny (b : N) (pc : nat)
-    (* 0: DenyStore.Deny; 1: CodeStore.DeleteByBookingID; 2: DenyChannel <- bid; 3: finished (204) *)
+| TDeny (b : N) (e : Z) (pc : nat)
+    (* a deny request for booking b until expiry e.
+       0: DenyStore.Deny; 1: CodeStore.DeleteByBookingID; 2: DenyChannel <- bid; 3: finished (204) *)
 | TAllow (b : N) (pc : nat)
     (* 0: DenyStore.Allow; 1: finished (204) *)
 | TWs (c : N) (pc : nat) (tok : option N)
     (* 0: ExchangeCode, then dcs.Add(bid, name, denied); 1: IsDenied re-check (refusal drops the channel entry);
        2: hub.register; 3: joined; 9: refused *)
-| TLeave (k : nat) (pc : nat).
+| TLeave (k : nat) (pc : nat)
     (* the client of connection k goes away: 0: Hub.drop (membership + dcs.DeleteChild); 1: finished *)
+| TPrune (t : Z) (pc : nat).
+    (* one tick of relay.go's prune loop with the clock reading t: 0: DenyStore.Prune (drops entries whose
+       own expiry is < t); 1: finished *)
 
 Record sys := mksys {
   deny : list N;                 (* DenyStore.DenyList (keys) *)
@@ -35,7 +39,8 @@ Record sys := mksys {
   members : list (nat * N);      (* hub membership: connection -> booking id *)
   ended : list nat;              (* connections that were dropped (client gone) *)
   q : list N;                    (* DenyChannel *)
-  threads : list thread
+  threads : list thread;
+  dexp : list (N * Z)            (* DenyStore.DenyList values: the expiry each deny request stated (latest wins) *)
 }.
 
 Fixpoint lookupc (c : N) (l : list (N * N)) : option N :=
@@ -45,32 +50,41 @@ Fixpoint upd {A} (l : list A) (i : nat) (x : A) : list A :=
   match l, i with [], _ => [] | _ :: r, O => x :: r | y :: r, S j => y :: upd r j x end.
 
 Definition with_threads (s : sys) (ts : list thread) : sys :=
-  mksys (deny s) (allow s) (codes s) (nextc s) (chm s) (closed s) (members s) (ended s) (q s) ts.
+  mksys (deny s) (allow s) (codes s) (nextc s) (chm s) (closed s) (members s) (ended s) (q s) ts (dexp s).
 
 (* the store operations *)
-Definition op_deny (s : sys) (b : N) : sys :=
-  mksys (b :: rmN b (deny s)) (rmN b (allow s)) (codes s) (nextc s) (chm s) (closed s) (members s) (ended s) (q s) (threads s).
+Definition rmE (b : N) (l : list (N * Z)) : list (N * Z) := filter (fun be => negb (N.eqb (fst be) b)) l.
+Definition op_deny_until (s : sys) (b : N) (e : Z) : sys :=
+  mksys (b :: rmN b (deny s)) (rmN b (allow s)) (codes s) (nextc s) (chm s) (closed s) (members s) (ended s) (q s) (threads s)
+        ((b, e) :: rmE b (dexp s)).
+Definition op_deny (s : sys) (b : N) : sys := op_deny_until s b 0.
+(* DenyStore.Prune at clock t: an entry leaves the deny list when its own stated expiry is < t *)
+Definition expired_at (s : sys) (t : Z) (b : N) : bool :=
+  existsb (fun be => N.eqb (fst be) b && (snd be <? t)%Z) (dexp s).
+Definition op_prune (s : sys) (t : Z) : sys :=
+  mksys (filter (fun b => negb (expired_at s t b)) (deny s)) (allow s) (codes s) (nextc s) (chm s) (closed s) (members s) (ended s)
+        (q s) (threads s) (filter (fun be => negb (snd be <? t)%Z) (dexp s)).
 Definition op_allow (s : sys) (b : N) : sys :=
-  mksys (rmN b (deny s)) (b :: rmN b (allow s)) (codes s) (nextc s) (chm s) (closed s) (members s) (ended s) (q s) (threads s).
+  mksys (rmN b (deny s)) (b :: rmN b (allow s)) (codes s) (nextc s) (chm s) (closed s) (members s) (ended s) (q s) (threads s) (dexp s).
 Definition op_track (s : sys) (b : N) : sys :=   (* AllowIfNotDenied when not denied *)
-  mksys (deny s) (b :: rmN b (allow s)) (codes s) (nextc s) (chm s) (closed s) (members s) (ended s) (q s) (threads s).
+  mksys (deny s) (b :: rmN b (allow s)) (codes s) (nextc s) (chm s) (closed s) (members s) (ended s) (q s) (threads s) (dexp s).
 Definition op_submit (s : sys) (b : N) : sys :=
-  mksys (deny s) (allow s) ((nextc s, b) :: codes s) (N.succ (nextc s)) (chm s) (closed s) (members s) (ended s) (q s) (threads s).
+  mksys (deny s) (allow s) ((nextc s, b) :: codes s) (N.succ (nextc s)) (chm s) (closed s) (members s) (ended s) (q s) (threads s) (dexp s).
 Definition op_purge (s : sys) (b : N) : sys :=
-  mksys (deny s) (allow s) (filter (fun cb => negb (N.eqb (snd cb) b)) (codes s)) (nextc s) (chm s) (closed s) (members s) (ended s) (q s) (threads s).
+  mksys (deny s) (allow s) (filter (fun cb => negb (N.eqb (snd cb) b)) (codes s)) (nextc s) (chm s) (closed s) (members s) (ended s) (q s) (threads s) (dexp s).
 Definition op_notify (s : sys) (b : N) : sys :=
-  mksys (deny s) (allow s) (codes s) (nextc s) (chm s) (closed s) (members s) (ended s) (q s ++ [b]) (threads s).
+  mksys (deny s) (allow s) (codes s) (nextc s) (chm s) (closed s) (members s) (ended s) (q s ++ [b]) (threads s) (dexp s).
 Definition op_exchange_record (s : sys) (c : N) (k : nat) (b : N) : sys :=
   mksys (deny s) (allow s) (filter (fun cb => negb (N.eqb (fst cb) c)) (codes s)) (nextc s)
-        ((k, b) :: chm s) (closed s) (members s) (ended s) (q s) (threads s).
+        ((k, b) :: chm s) (closed s) (members s) (ended s) (q s) (threads s) (dexp s).
 Definition op_delchild (s : sys) (k : nat) : sys :=
   mksys (deny s) (allow s) (codes s) (nextc s) (filter (fun kb => negb (Nat.eqb (fst kb) k)) (chm s))
-        (closed s) (members s) (ended s) (q s) (threads s).
+        (closed s) (members s) (ended s) (q s) (threads s) (dexp s).
 Definition op_register (s : sys) (k : nat) (b : N) : sys :=
-  mksys (deny s) (allow s) (codes s) (nextc s) (chm s) (closed s) ((k, b) :: members s) (ended s) (q s) (threads s).
+  mksys (deny s) (allow s) (codes s) (nextc s) (chm s) (closed s) ((k, b) :: members s) (ended s) (q s) (threads s) (dexp s).
 Definition op_drop (s : sys) (k : nat) : sys :=
   mksys (deny s) (allow s) (codes s) (nextc s) (filter (fun kb => negb (Nat.eqb (fst kb) k)) (chm s))
-        (closed s) (filter (fun kb => negb (Nat.eqb (fst kb) k)) (members s)) (k :: ended s) (q s) (threads s).
+        (closed s) (filter (fun kb => negb (Nat.eqb (fst kb) k)) (members s)) (k :: ended s) (q s) (threads s) (dexp s).
 
 (* one atomic step of thread i (None: finished, or no such thread) -- the CURRENT code *)
 Definition tstep (s : sys) (i : nat) : option sys :=
@@ -81,9 +95,9 @@ Definition tstep (s : sys) (i : nat) : option sys :=
     match t with
     | TSession b 0 _ => if memN b (deny s) then put (TSession b 2 400) s else put (TSession b 1 0) (op_track s b)
     | TSession b 1 _ => put (TSession b 2 200) (op_submit s b)
-    | TDeny b 0 => put (TDeny b 1) (op_deny s b)
-    | TDeny b 1 => put (TDeny b 2) (op_purge s b)
-    | TDeny b 2 => put (TDeny b 3) (op_notify s b)
+    | TDeny b e 0 => put (TDeny b e 1) (op_deny_until s b e)
+    | TDeny b e 1 => put (TDeny b e 2) (op_purge s b)
+    | TDeny b e 2 => put (TDeny b e 3) (op_notify s b)
     | TAllow b 0 => put (TAllow b 1) (op_allow s b)
     | TWs c 0 _ => match lookupc c (codes s) with
                    | None => put (TWs c 9 None) s
@@ -92,6 +106,7 @@ Definition tstep (s : sys) (i : nat) : option sys :=
     | TWs c 1 (Some b) => if memN b (deny s) then put (TWs c 9 (Some b)) (op_delchild s i) else put (TWs c 2 (Some b)) s
     | TWs c 2 (Some b) => put (TWs c 3 (Some b)) (op_register s i b)
     | TLeave k 0 => put (TLeave k 1) (op_drop s k)
+    | TPrune t 0 => put (TPrune t 1) (op_prune s t)
     | _ => None
     end
   end.
@@ -103,7 +118,7 @@ Definition denyloop (s : sys) : option sys :=
   | b :: r => Some (mksys (deny s) (allow s) (codes s) (nextc s)
                       (filter (fun kb => negb (N.eqb (snd kb) b)) (chm s))
                       (map fst (filter (fun kb => N.eqb (snd kb) b) (chm s)) ++ closed s)
-                      (members s) (ended s) r (threads s))
+                      (members s) (ended s) r (threads s) (dexp s))
   end.
 
 Inductive who := T (i : nat) | L.
@@ -121,10 +136,11 @@ Fixpoint run (sched : list who) (s : sys) : sys :=
 Definition finished (t : thread) : bool :=
   match t with
   | TSession _ pc _ => (2 <=? pc)
-  | TDeny _ pc => (3 <=? pc)
+  | TDeny _ _ pc => (3 <=? pc)
   | TAllow _ pc => (1 <=? pc)
   | TWs _ pc _ => (3 <=? pc)
   | TLeave _ pc => (1 <=? pc)
+  | TPrune _ pc => (1 <=? pc)
   end.
 
 Definition quiescent (s : sys) : bool :=
@@ -137,7 +153,7 @@ Definition live (s : sys) (k : nat) (b : N) : bool :=
 Definition live_conns (s : sys) (b : N) : list nat :=
   map fst (filter (fun kb => N.eqb (snd kb) b && negb (memn (fst kb) (closed s)) && negb (memn (fst kb) (ended s))) (members s)).
 
-Definition init (ts : list thread) (cs : list (N * N)) (n : N) : sys := mksys [] [] cs n [] [] [] [] [] ts.
+Definition init (ts : list thread) (cs : list (N * N)) (n : N) : sys := mksys [] [] cs n [] [] [] [] [] ts [].
 
 (* ---- the code as it was before the two repairs (kept to show that the theorems tell them apart) ---- *)
 Inductive othread :=
@@ -164,11 +180,11 @@ Definition otstep (o : osys) (i : nat) : option osys :=
                    | None => put (OWs c 9 None) s
                    | Some b => put (OWs c 1 (Some b))
                                  (mksys (deny s) (allow s) (filter (fun cb => negb (N.eqb (fst cb) c)) (codes s)) (nextc s)
-                                        (chm s) (closed s) (members s) (ended s) (q s) (threads s))
+                                        (chm s) (closed s) (members s) (ended s) (q s) (threads s) (dexp s))
                    end
     | OWs c 1 (Some b) => if memN b (deny s) then put (OWs c 9 (Some b)) s else put (OWs c 2 (Some b)) s
     | OWs c 2 (Some b) => put (OWs c 3 (Some b))
-                            (mksys (deny s) (allow s) (codes s) (nextc s) ((i, b) :: chm s) (closed s) ((i, b) :: members s) (ended s) (q s) (threads s))
+                            (mksys (deny s) (allow s) (codes s) (nextc s) ((i, b) :: chm s) (closed s) ((i, b) :: members s) (ended s) (q s) (threads s) (dexp s))
     | _ => None
     end
   end.
